@@ -760,6 +760,13 @@ def check_token_use(rep, R, cfg, rule='C10.R3'):
                   got='project %s ; rank %s' % (R.nice(d['projectID'].value)[-70:], R.nice(d['rank_student'].value)[-70:]), want='projects[k], ranks[k] of one tokeniser call',
                   construct='pair built from %s / %s' % ('projects[k]' if a and a[1] == 0 else 'not the tokenised project', 'ranks[k]' if b and b[1] == 1 else 'not the tokenised rank'),
                   loc=d['rank_student'].loc)
+        if ok and a[2][0] == 'bvar' and a[2][3][0] == 'call' and a[2][3][1] == S('range'):
+            # ... for EVERY k: the positions run over the whole token list
+            ra = a[2][3][2]
+            lens = [CALL(S('len'), [rets[a[0]][1][0]]), CALL(S('len'), [rets[a[0]][1][1]])]
+            full = (len(ra) == 1 and ra[0] in lens) or (len(ra) == 2 and ra[0] == C(0) and ra[1] in lens)
+            rep.check(full, rule, w, 'every token of the line becomes a pair %s' % cfg, got='k in range(%s)' % ', '.join(R.nice(x)[-50:] for x in ra), want='range(len(projects))',
+                      construct='pairs built for range(%s)' % ', '.join(show(x)[-40:] for x in ra), loc=d['rank_student'].loc)
     # second-side ranks
     if R.twopl:
         for e, ctx in R.events():
